@@ -1,5 +1,6 @@
 (** C05 — the slicing skeleton of src/expression.rs (evaluate_expression / find_operator), after the
-    repairs 32df0c7 (byte offsets from char_indices) and aee5bb9 (quotes tested before slicing), on
+    repairs 32df0c7 (byte offsets from char_indices), aee5bb9 (quotes tested before slicing), e2ff44b
+    (parenthesised sub-expressions), 037343a (signs) and 20bd893 (operators inside string literals), on
     strings as lists of Unicode scalar values with UTF-8 byte offsets.  Definitions only.
 
     Rust items modelled:
@@ -46,17 +47,29 @@ Definition trim (s : str) : str := rev (trim_start (rev (trim_start s))).
 
 Definition memc (c : Z) (ops : list Z) : bool := existsb (Z.eqb c) ops.
 
-(** find_operator: byte offset of the rightmost operator character at parenthesis depth 0 *)
-Fixpoint find_op (ops : list Z) (s : str) (off depth : Z) (last : option Z) : option Z :=
+(** find_operator: byte offset of the rightmost operator character at parenthesis depth 0 that is
+    outside string literals and is not a sign (a + or - at the start or directly after another operator);
+    [prev] = previous non-whitespace character, [quote] = the quote character of the literal being skipped *)
+Definition is_arith (c : Z) : bool := memc c [43; 45; 42; 47; 37].
+Fixpoint find_op (ops : list Z) (s : str) (off depth : Z) (prev quote last : option Z) : option Z :=
   match s with
   | [] => last
   | c :: r =>
       let off' := off + utf8_len c in
-      if c =? 40 then find_op ops r off' (depth + 1) last
-      else if c =? 41 then find_op ops r off' (depth - 1) last
-      else if (depth =? 0) && memc c ops then find_op ops r off' depth (Some off)
-      else find_op ops r off' depth last
+      match quote with
+      | Some q => find_op ops r off' depth (Some c) (if c =? q then None else quote) last
+      | None =>
+          let prev' := if ws c then prev else Some c in
+          if (c =? 34) || (c =? 39) then find_op ops r off' depth prev' (Some c) last
+          else if c =? 40 then find_op ops r off' (depth + 1) prev' None last
+          else if c =? 41 then find_op ops r off' (depth - 1) prev' None last
+          else if (depth =? 0) && memc c ops then
+            let is_sign := ((c =? 43) || (c =? 45)) && match prev with None => true | Some p => is_arith p end in
+            find_op ops r off' depth prev' None (if is_sign then last else Some off)
+          else find_op ops r off' depth prev' None last
+      end
   end.
+Definition find_operator (ops : list Z) (e : str) : option Z := find_op ops e 0 0 None None None.
 
 Definition plus_minus : list Z := [43; 45].
 Definition mul_div_mod : list Z := [42; 47; 37].
@@ -68,8 +81,9 @@ Inductive res :=
 | RErrField (leaf : str)       (* Err: Field '<leaf>' not found in facts *)
 | RErrOther.                   (* any other Err (arithmetic on non-numbers, division by zero, ...) *)
 
-Definition quoted (s : str) (q : Z) : bool :=
-  match s, rev s with c :: _, d :: _ => (c =? q) && (d =? q) | _, _ => false end.
+Definition enclosed (s : str) (a b : Z) : bool :=
+  match s, rev s with c :: _, d :: _ => (c =? a) && (d =? b) | _, _ => false end.
+Definition quoted (s : str) (q : Z) : bool := enclosed s q q.
 
 (** the leaf case: string literal test (with its slice), number, field lookup on empty facts *)
 Definition leaf (e : str) : res :=
@@ -89,7 +103,7 @@ Fixpoint shape (fuel : nat) (e0 : str) : res :=
   | S f =>
       let e := trim e0 in
       let try_split (ops : list Z) (k : unit -> res) : res :=
-        match find_op ops e 0 0 None with
+        match find_operator ops e with
         | Some pos =>
             match slice e 0 pos, slice e pos (pos + 1), slice e (pos + 1) (blen e) with
             | Some l, Some _, Some r =>
@@ -101,7 +115,11 @@ Fixpoint shape (fuel : nat) (e0 : str) : res :=
             end
         | None => k tt
         end in
-      try_split plus_minus (fun _ => try_split mul_div_mod (fun _ => leaf e))
+      try_split plus_minus (fun _ => try_split mul_div_mod (fun _ =>
+        (* a parenthesised sub-expression: evaluate what is inside *)
+        if (2 <=? blen e) && enclosed e 40 41 then
+          match slice e 1 (blen e - 1) with Some inner => shape f inner | None => RPanic end
+        else leaf e))
   end.
 
 (** [RValue] for an operator node means "both operands evaluated"; whether the arithmetic then
